@@ -19,6 +19,13 @@ LEAN = os.path.join(VERIF, 'lean-crystals')
 MODULE = 'XrlCrystals.Props.C14'
 NAMESPACE = 'XrlCrystals.C14'
 PROPS_FILE = os.path.join(LEAN, 'XrlCrystals', 'Props', 'C14.lean')
+# the property theorems: refinement + clauses (C14), the file clauses over the character-level reader (C14b), the tie of the
+# hand model to the structure extracted from the clang AST of the working tree (C14c)
+PROPS = [('XrlCrystals.Props.C14', PROPS_FILE), ('XrlCrystals.Props.C14b', os.path.join(LEAN, 'XrlCrystals', 'Props', 'C14b.lean')),
+         ('XrlCrystals.Props.C14c', os.path.join(LEAN, 'XrlCrystals', 'Props', 'C14c.lean'))]
+FACTS_TOOL = os.path.join(VERIF, 'tools', 'c14_facts.py')
+FACTS_FILE = os.path.join(LEAN, 'XrlCrystals', 'Gen', 'Facts.lean')
+SKELETON_FILE = os.path.join(LEAN, 'XrlCrystals', 'Hand', 'Skeleton.lean')
 HARNESS = os.path.join(VERIF, 'harness', 'c14drv.c')
 CORPUS = os.path.join(VERIF, 'corpus')
 WRAP = ['-Wl,--wrap=' + s for s in 'malloc calloc realloc free strdup strndup vasprintf'.split()]
@@ -41,36 +48,70 @@ POOL = ['Aa', 'Ab', 'B', 'Ba', 'C60', 'Cu2O', 'D', 'Diamond', 'E1', 'E10', 'E2',
 
 LONG_NAMES = ['W_long_name_20_charsA', 'W_long_name_20_charsB', 'W_long_name_20_chars_and_more', 'Quite_a_long_crystal_name_1', 'Quite_a_long_crystal_name_2']
 
-def dec(rng, lo, hi, nd=None):
+def dec(rng, lo, hi, nd=None, wide=True):
+    """a decimal token.  Besides plain `%.nf` forms: exponent notation, an explicit `+`, a trailing or leading `.`, leading zeros -
+    every form is read the same way by C's strtod / scanf("%lf") and by Python's float() (the independent prediction)"""
     nd = rng.choice([0, 1, 2, 4, 6]) if nd is None else nd
-    return ('%.' + str(nd) + 'f') % rng.uniform(lo, hi)
+    v = rng.uniform(lo, hi)
+    t = ('%.' + str(nd) + 'f') % v
+    if not wide: return t
+    k = rng.random()
+    if k < 0.80: return t
+    if k < 0.86: return ('%.' + str(rng.choice([0, 2, 5])) + rng.choice('eE')) % v            # 5.43e+00, 5E+00
+    sg, body = ('-', t[1:]) if t.startswith('-') else ('', t)
+    if k < 0.89: return t if sg else '+' + t
+    if k < 0.92: return sg + (body + '.' if '.' not in body else body.rstrip('0'))          # `5.`  `5.4`
+    if k < 0.95: return sg + '00' + body
+    if k < 0.97: return ('%de-3' % int(v * 1000))                                           # 5431e-3
+    return t + 'e0'
 
-def gen_crystal(rng, name=None):
+def c_int(tok):
+    """value of an integer token as scanf("%i") reads a C literal: 0x.. hexadecimal, 0.. octal, else decimal"""
+    t = tok.strip(); neg = t.startswith('-'); t = t.lstrip('+-')
+    if t[:2].lower() == '0x': v = int(t[2:], 16)
+    elif len(t) > 1 and t[0] == '0': v = int(t, 8)
+    else: v = int(t, 10)
+    return -v if neg else v
+
+def z_token(rng, z):
+    k = rng.random()
+    if k < 0.85: return str(z)
+    if k < 0.90: return '+%d' % z
+    if k < 0.95: return '0%o' % z           # octal, as %i reads it
+    return '0x%X' % z
+
+def gen_crystal(rng, name=None, wide=True):
     """a crystal as decimal strings (so that the same numbers can be written to a file and parsed back exactly)"""
     name = name or rng.choice(POOL)
     k = rng.random()
+    D = lambda lo, hi: dec(rng, lo, hi, wide=wide)
     if k < 0.45: ang = ['90.0000'] * 3
     elif k < 0.6: ang = ['90', '90', '120']
-    elif k < 0.9: ang = [dec(rng, 50, 130) for _ in range(3)]
-    else: ang = [dec(rng, 1, 179) for _ in range(3)]          # often geometrically impossible: volume NaN
-    a = dec(rng, 1, 20)
-    cell = [a, a if rng.random() < 0.5 else dec(rng, 1, 20), a if rng.random() < 0.4 else dec(rng, 1, 20)] + ang
+    elif k < 0.87: ang = [D(50, 130) for _ in range(3)]
+    elif k < 0.9: ang = [D(-130, -50) for _ in range(3)]         # negative angles: cos is even, the volume formula does not care
+    else: ang = [D(1, 179) for _ in range(3)]                     # often geometrically impossible: volume NaN
+    a = D(1, 20)
+    cell = [a, a if rng.random() < 0.5 else D(1, 20), a if rng.random() < 0.4 else D(1, 20)] + ang
     n = rng.choice([0, 1, 1, 2, 2, 3, 4, 6, 8])
-    atoms = [(str(rng.choice([1, 6, 8, 14, 26, 29, 32, 82, 92, rng.randint(1, 107)])), rng.choice(['1.0', '1', '0.5', '0.25', dec(rng, 0, 1)]),
-              rng.choice(['0.0', '.25', '0.5', '.75', dec(rng, 0, 1)]), rng.choice(['0', '.25', '0.5', '.75', dec(rng, 0, 1)]),
-              rng.choice(['0.0', '.25', '0.5', '.75', dec(rng, 0, 1)])) for _ in range(n)]
-    vol = rng.choice(['0', '1', '-3.5', dec(rng, 0, 1000), '1e300'])
+    zt = (lambda z: z_token(rng, z)) if wide else str
+    atoms = [(zt(rng.choice([1, 6, 8, 14, 26, 29, 32, 82, 92, rng.randint(1, 107)])), rng.choice(['1.0', '1', '0.5', '0.25', D(0, 1)]),
+              rng.choice(['0.0', '.25', '0.5', '.75', '-0.0', D(0, 1)]), rng.choice(['0', '.25', '0.5', '.75', '1e-1', D(0, 1)]),
+              rng.choice(['0.0', '.25', '0.5', '.75', '-.25', D(0, 1)])) for _ in range(n)]
+    vol = rng.choice(['0', '1', '-3.5', dec(rng, 0, 1000, wide=False), '1e300'])
     return dict(name=name, cell=cell, atoms=atoms, vol=vol)
 
 def crystal_tokens(c, vol=None):
     t = [c['name']] + [hx(float(v)) for v in c['cell']] + [hx(float(c['vol'] if vol is None else vol)), str(len(c['atoms']))]
     for a in c['atoms']:
-        t += [str(int(a[0]))] + [hx(float(v)) for v in a[1:]]
+        t += [str(c_int(a[0]))] + [hx(float(v)) for v in a[1:5]]
     return ' '.join(t)
 
-def render_entry(rng_bits, c, bad=None):
-    """text of one `#S` block in the syntax of data/Crystals.dat.  `bad`: how to corrupt it."""
-    b = rng_bits
+def render_entry(rng_bits, c, bad=None, opt=None):
+    """text of one `#S` block in the syntax of data/Crystals.dat.  `bad`: how to corrupt it.
+    `opt`: dict(tabs: separators are tabs / several blanks, biso: a sixth column, longc: comment lines of 100+ characters)"""
+    b = rng_bits; opt = opt or {}
+    sep = ['\t', '  ', ' \t ', '\t\t'][b % 4] if opt.get('tabs') else ' '
+    J = lambda xs: sep.join(xs)
     out = []
     fname = c.get('fname', c['name'])
     if bad == 'S':
@@ -78,47 +119,101 @@ def render_entry(rng_bits, c, bad=None):
         out.append('#UCELL ' + ' '.join(c['cell']))
         out.append('#L  AtomicNumber  Fraction  X  Y  Z')
         return out
-    out.append('#S %d %s' % (b % 93, fname))
+    out.append(J(['#S', '%d' % (b % 93), fname]) + ('   ignored words' if opt.get('tabs') and b & 16 else ''))
     if b & 1: out.append('#UCOMMENT generated %d' % b)
+    if opt.get('longc'):
+        # fgets(buffer, 100) cuts a long line into pieces; the pieces of a comment are lines that mean nothing
+        out.append('#UCOMMENT ' + 'long comment, '[: 1 + b % 13] * 30)
     if bad == 'UM': out.append(['#UCELL ' + ' '.join(c['cell'][:5]), '#UCELL 1 2 x 90 90 90', '#UCELL'][b % 3])
-    elif bad != 'U0': out.append('#UCELL ' + ' '.join(c['cell']))
+    elif bad != 'U0': out.append(J(['#UCELL'] + c['cell']))
     if bad == 'U2': out.append('#UCELL ' + ' '.join(c['cell']))
     if b & 2: out.append('#USYSTEM Cubic'); out.append('#UTEMP 298.15')
     if bad == 'EOF':
-        # the file ends here.  (fgets' result is not looked at: were `#UCELL` the last line it would be seen twice and the
-        # error would be "Multiple #UCELL lines"; so the last line is made something else)
+        # the file ends here, before or with the `#L` line
         out.append('#L  AtomicNumber  Fraction  X  Y  Z' if b & 4 else '#UREF none')
         return out
-    out.append('#L  AtomicNumber  Fraction  X  Y  Z')
+    out.append('#L  AtomicNumber  Fraction  X  Y  Z' + ('  Biso' if opt.get('biso') else ''))
     for i, a in enumerate(c['atoms']):
         if bad == 'AT' and i == c['bad_line']:
             if c['bad_how'] == 0: out.append('%s %s oops %s %s' % (a[0], a[1], a[3], a[4])); continue
             if c['bad_how'] == 1: out.append('Si %s %s %s %s' % (a[1], a[2], a[3], a[4])); continue
             out.append('')                                                     # a blank line is counted as an atom
-        out.append(' '.join(a))
+        out.append(J(list(a[:5]) + (['%.2f' % (0.1 + 0.07 * ((b + i) % 23))] if opt.get('biso') else [])))
     return out
 
 def render_file(spec):
-    """spec: dict(entries=[crystal...], bad=None|(kind, crystal), bits=int, tail=0|1|2)"""
+    """spec: dict(entries=[crystal...], bad=None|(kind, crystal), bits=int, tail=0|1|2|3, [tabs, biso, longc, crlf, empty0])
+    or dict(raw=<text>, why=<kind>) for a file whose reading is not predicted by the generator (see `uninterpreted_file`)"""
+    if 'raw' in spec: return spec['raw']
+    if spec.get('empty0'): return ''
     b = spec['bits']
     lines = ['#F generated', '#UT test', '', '#UD #S is mentioned here but not at the start of a line'] if b & 8 else []
+    if spec.get('longc') and b & 8:
+        k = 95 + b % 120
+        if (4 + k + 1) % 99 == 0: k += 1                 # fgets(buffer, 100) cuts after every 99 characters: `#S` must not start a piece
+        lines.append('#UD ' + 'x' * k + ' #S 3 Ghost is inside a long line but not at a cut')
     for i, c in enumerate(spec['entries']):
-        lines += render_entry(b + 7 * i, c)
+        lines += render_entry(b + 7 * i, c, None, spec)
     text_tail = '#EOF\n'
+    text = None
     if spec.get('bad'):
         kind, c = spec['bad']
-        lines += render_entry(b, c, kind)
-        if kind == 'EOF': return '\n'.join(lines) + '\n'
-        # whatever follows the malformed entry must not matter
-        lines += render_entry(b + 1, dict(name='Later', cell=['1', '1', '1', '90', '90', '90'], atoms=[('1', '1', '0', '0', '0')], vol='0'))
-    elif spec.get('tail') == 1 and spec['entries'] and spec['entries'][-1]['atoms']:
-        return '\n'.join(lines)                                                # no `#` line and no newline after the last atom
+        lines += render_entry(b, c, kind, spec)
+        if kind == 'EOF': text = '\n'.join(lines) + ('\n' if b & 32 else '')
+        else:
+            # whatever follows the malformed entry must not matter
+            lines += render_entry(b + 1, dict(name='Later', cell=['1', '1', '1', '90', '90', '90'], atoms=[('1', '1', '0', '0', '0')], vol='0'))
+    elif spec.get('tail') in (1, 3) and spec['entries'] and spec['entries'][-1]['atoms']:
+        # 1: no `#` line and no newline after the last atom; 3: the file ends with the newline of its last atom line
+        text = '\n'.join(lines) + ('\n' if spec['tail'] == 3 else '')
     elif spec.get('tail') == 2:
         text_tail = '#EOF\n\n\n'
-    return '\n'.join(lines + [text_tail]) if lines else text_tail
+    if text is None: text = '\n'.join(lines + [text_tail]) if lines else text_tail
+    if spec.get('crlf'): text = text.replace('\n', '\r\n')
+    return text
+
+ASCII_BYTES = ''.join(chr(i) for i in range(32, 127)) + '\x00\t\r\n\n\n   ##'
+
+def uninterpreted_file(rng, names, kind=None):
+    """files whose reading the generator does not predict: the model's character-level reader (`c14-model parse`) says what
+    Crystal_ReadFile makes of them, and the library must agree; for the specification they are `whatever the reader model reads`"""
+    kind = kind or rng.choice(['garbage', 'mutated', 'mutated', 'mutated', 'longatom', 'oct', 'ghost', 'glued'])
+    base = dict(entries=[gen_crystal(rng, rng.choice(names)) for _ in range(rng.choice([1, 2, 3]))], bad=None, bits=rng.randint(0, 1 << 16), tail=rng.choice([0, 1, 3]),
+                tabs=rng.random() < 0.3, biso=rng.random() < 0.3)
+    text = render_file(base)
+    if kind == 'garbage':
+        text = ''.join(rng.choice(ASCII_BYTES) for _ in range(rng.choice([1, 7, 40, 200, 600])))
+        if rng.random() < 0.5: text = rng.choice(['#S', '#S 1 G\n#UCELL', '#S 1 G\n#UCELL 1 2 3 4 5 6\n#L\n', '#']) + text
+    elif kind == 'mutated':
+        for _ in range(rng.choice([1, 1, 2, 4])):
+            if not text: break
+            i = rng.randrange(len(text)); k = rng.random()
+            if k < 0.35: text = text[:i] + rng.choice(ASCII_BYTES) + text[i + 1:]
+            elif k < 0.55: text = text[:i] + rng.choice(ASCII_BYTES) + text[i:]
+            elif k < 0.75: text = text[:i] + text[i + 1:]
+            elif k < 0.85: text = text[:i]                                        # truncated anywhere
+            else:
+                ls = text.split('\n'); j = rng.randrange(len(ls)); ls.insert(j, ls[rng.randrange(len(ls))]); text = '\n'.join(ls)
+    elif kind == 'longatom':
+        ls = text.split('\n'); idx = [j for j, l in enumerate(ls) if l and l[0] != '#']
+        if idx:
+            j = rng.choice(idx); ls[j] = ls[j] + ' ' * rng.choice([60, 80, 99, 120]) + rng.choice(['', '0.5', '# remark'])
+        text = '\n'.join(ls)
+    elif kind == 'oct':
+        ls = text.split('\n'); idx = [j for j, l in enumerate(ls) if l and l[0] != '#']
+        for j in idx[:2]: ls[j] = rng.choice(['08', '09', '019', '0x', '0xg1', '+08', '-010']) + ' ' + ls[j].split(None, 1)[-1]
+        text = '\n'.join(ls)
+    elif kind == 'ghost':
+        pad = rng.choice([99, 99, 98, 100, 198])
+        text = ('#UD ' + 'y' * (pad - 4)) + rng.choice(['#S 3 Ghost', '#L', '#UCELL 9 9 9 90 90 90', '#S 3 ' + names[0]]) + '\n' + text
+    elif kind == 'glued':
+        text = text.replace('#UCELL ', rng.choice(['#UCELL', '#UCELLS ', '#UCELL\t', '#UCELL +'])).replace('#S ', rng.choice(['#S', '#S\t', '#Sx ', '#S -']), 1)
+    return dict(raw=text, why=kind)
 
 def parsed_tokens(spec):
-    """the parsed content handed to the model: `G <crystal>`… [`E <kind> …`]"""
+    """the parsed content handed to the specification (and, for replays without files, to the model): `G <crystal>`… [`E <kind> …`]"""
+    if 'raw' in spec: return spec.get('tokens') or ''
+    if spec.get('empty0'): return ''
     t = []
     for c in spec['entries']:
         t.append('G ' + crystal_tokens(dict(c, name=c.get('fname', c['name'])[:20]), vol='0'))
@@ -133,10 +228,20 @@ def parsed_tokens(spec):
         else: t.append('E %s %s' % (kind, nm))
     return ' '.join(t)
 
+def file_names(spec):
+    """names (as stored: 20 characters) the file tries to add"""
+    if 'raw' in spec: return [w.split(' ')[1] for w in (' ' + (spec.get('tokens') or '')).split(' G ')[1:]]
+    return [c.get('fname', c['name'])[:20] for c in spec.get('entries', [])]
+
 class Hist:
     """a history: ops are dicts; handles are indices into the caller's tables, renumbered on shrinking"""
-    def __init__(self, ops, pool=None, kind='valid'):
+    def __init__(self, ops, pool=None, kind='valid', shared=None):
         self.ops = ops; self.pool = pool or (POOL + LONG_NAMES); self.kind = kind
+        self.shared = shared        # a directory that already holds the crystal files `f<fidx>.dat` of this (enumerated) history
+        self.skip = None
+
+    def file_specs(self):
+        return [o['file'] for o in self.ops if o['op'] == 'read' and isinstance(o['file'], dict)]
 
     def lines(self, builtin_lines):
         out = list(builtin_lines) + ['pool ' + ' '.join(self.pool)]
@@ -147,6 +252,8 @@ class Hist:
             elif k == 'add': out.append('add %s %s' % (o['arr'], self.src(o['src'])))
             elif k == 'read':
                 if o['file'] in ('NOFILE', 'NULLNAME'): out.append('read %s %s' % (o['arr'], o['file']))
+                elif self.shared is not None:
+                    out.append(('read %s %d %s' % (o['arr'], o['fidx'], parsed_tokens(o['file']))).rstrip())
                 else:
                     out.append(('read %s %d %s' % (o['arr'], nfile, parsed_tokens(o['file']))).rstrip()); files.append(render_file(o['file'])); nfile += 1
             elif k == 'get': out.append('get %s %s' % (o['arr'], o['name']))
@@ -163,7 +270,10 @@ class Hist:
         return 'L ' + crystal_tokens(s)
 
     def to_json(self):
-        return json.dumps(dict(kind=self.kind, pool=self.pool, ops=self.ops))
+        def clean(o):
+            if isinstance(o.get('file'), dict) and 'tokens' in o['file']: o = dict(o, file={k: v for k, v in o['file'].items() if k != 'tokens'})
+            return {k: v for k, v in o.items() if k != 'fidx'}
+        return json.dumps(dict(kind=self.kind, pool=self.pool, ops=[clean(o) for o in self.ops]))
 
     @staticmethod
     def from_json(txt):
@@ -199,13 +309,17 @@ class Hist:
         return Hist(new, self.pool, self.kind)
 
 def gen_file(rng, names, max_entries=5):
+    r = rng.random()
+    if r < 0.03: return dict(empty0=True, entries=[], bad=None, bits=0, tail=0)          # a file of 0 bytes: no crystal, no error
+    if r < 0.11: return uninterpreted_file(rng, names)
     n = rng.choice([0, 1, 1, 2, 2, 3, max_entries])
     entries = []
     for _ in range(n):
         c = gen_crystal(rng, rng.choice(names))
         if rng.random() < 0.05: c['fname'] = c['name'] + '_made_longer_than_20_characters'
         entries.append(c)
-    spec = dict(entries=entries, bad=None, bits=rng.randint(0, 1 << 16), tail=rng.choice([0, 0, 0, 1, 2]))
+    spec = dict(entries=entries, bad=None, bits=rng.randint(0, 1 << 16), tail=rng.choice([0, 0, 0, 1, 2, 3]),
+                tabs=rng.random() < 0.2, biso=rng.random() < 0.15, longc=rng.random() < 0.15, crlf=rng.random() < 0.12)
     if rng.random() < 0.3:
         kind = rng.choice(['S', 'U0', 'U2', 'UM', 'EOF', 'AT'])
         c = gen_crystal(rng, rng.choice(names))
@@ -268,7 +382,12 @@ def gen_history(rng, kind='valid', length=None):
             f = rng.choice(['NOFILE', 'NULLNAME']) if rng.random() < 0.08 else gen_file(rng, names)
             ops.append(dict(op='read', arr=pick_arr(), file=f))
         elif r < 0.60:
-            ops.append(dict(op='get', arr=pick_arr(), name='~' if rng.random() < 0.03 else rng.choice(names))); objs.append('?')
+            r2 = rng.random()
+            nm = '~' if r2 < 0.03 else rng.choice(LONG_NAMES) if r2 < 0.15 else rng.choice(names)
+            if 0.15 <= r2 < 0.22:           # a name some file of this history stored (possibly cut to 20 characters)
+                fn = [x for o in ops if o['op'] == 'read' and isinstance(o['file'], dict) and 'raw' not in o['file'] for x in file_names(o['file'])]
+                if fn: nm = rng.choice(fn)
+            ops.append(dict(op='get', arr=pick_arr(), name=nm)); objs.append('?')
         elif r < 0.65: ops.append(dict(op='list', arr=pick_arr()))
         elif r < 0.71: ops.append(dict(op='copy', src=pick_src())); objs.append('?')
         elif r < 0.80:
@@ -297,7 +416,78 @@ def gen_history(rng, kind='valid', length=None):
         for i, s in enumerate(arrs):
             if s == 'live': ops.append(dict(op='afree', i=i))
         ops.append(dict(op='list', arr='B'))
-    return Hist(ops, names, kind)
+    # every name that can be in a collection is looked up in every live collection after every operation: the short names of this
+    # history, the names longer than the 20 characters a file can carry, and the 20-character prefixes files store for long names
+    cut = sorted({x for o in ops if o['op'] == 'read' and isinstance(o['file'], dict) and 'raw' not in o['file'] for x in file_names(o['file']) if len(x) == 20} - set(names))
+    return Hist(ops, names + LONG_NAMES + cut, kind)
+
+# --------------------------------------------------------------------------------------------------------------
+# exhaustive enumeration of short histories
+
+EXH_NAMES = ['Si', 'Aa', 'W_long_name_20_chars_and_more']          # a shipped crystal's name, a new one, one of 29 characters
+def exh_crystal(name, k):
+    return dict(name=name, cell=['%d.5' % (2 + k), '%d.25' % (3 + k), '4', '90', '90', ['90', '120', '75.5'][k % 3]],
+                atoms=[('14', '1.0', '0', '0', '0'), ('8', '0.5', '.25', '.25', '.%d' % (k + 1))][:1 + k % 2], vol=['0', '7', '-1'][k % 3])
+EXH_LIT = [exh_crystal(n, k) for k, n in enumerate(EXH_NAMES)]
+EXH_FILES = [dict(entries=[exh_crystal('Aa', 3), dict(exh_crystal('W_long', 4), fname='W_long_name_20_chars_and_more')], bad=None, bits=3, tail=3),
+             dict(entries=[exh_crystal('Si', 5)], bad=('UM', exh_crystal('Bad', 6)), bits=4, tail=0),
+             dict(empty0=True, entries=[], bad=None, bits=0, tail=0)]
+EXH_POOL = EXH_NAMES + ['W_long_name_20_chars']
+
+def exh_alphabet(level):
+    """the operation kinds of the protocol over 3 names, the built-in array and (at most) one user array and two handed-out objects.
+    level 2: everything (length <= 4); level 1: a reduced alphabet (one literal per target, one lookup per collection) for length 5"""
+    A = [dict(op='init', n=0), dict(op='init', n=1)]
+    if level >= 2: A.append(dict(op='init', n=-1))
+    lits = [0, 1, 2] if level >= 2 else [1, 2]
+    A += [dict(op='add', arr='A0', src=EXH_LIT[i]) for i in lits]
+    A += [dict(op='add', arr='B', src=EXH_LIT[i]) for i in (lits if level >= 2 else [2])]
+    A += [dict(op='add', arr='A0', src='O0')]
+    if level >= 2: A += [dict(op='add', arr='A0', src='N'), dict(op='add', arr='B', src='O0')]
+    A += [dict(op='read', arr='A0', file=EXH_FILES[0], fidx=0)]
+    if level >= 2: A += [dict(op='read', arr='B', file=EXH_FILES[0], fidx=0), dict(op='read', arr='A0', file=EXH_FILES[1], fidx=1), dict(op='read', arr='A0', file=EXH_FILES[2], fidx=2),
+                         dict(op='read', arr='A0', file='NOFILE')]
+    A += [dict(op='get', arr='A0', name=n) for n in (EXH_NAMES if level >= 2 else EXH_NAMES[1:])]
+    A += [dict(op='get', arr='B', name=n) for n in (['Si', EXH_NAMES[2]] if level >= 2 else ['Si'])]
+    if level >= 2: A += [dict(op='list', arr='A0'), dict(op='copy', src=EXH_LIT[1])]
+    A += [dict(op='copy', src='O0'), dict(op='free', j=0), dict(op='free', j=1), dict(op='scrib', j=0, w=-1.5), dict(op='afree', i=0)]
+    return A
+
+def exh_apply(st, o):
+    """syntactic life cycle of the handles: -> (applicable, undefined, new state).  State: (A0 in None|'live'|'null'|'freed', objects)"""
+    a0, objs = st
+    k = o['op']
+    uses_a = o.get('arr') == 'A0' or k == 'afree'
+    if uses_a and a0 is None: return False, False, st
+    src = o.get('src')
+    uses_o = [int(src[1:])] if isinstance(src, str) and src.startswith('O') else [o['j']] if k in ('free', 'scrib') else []
+    if any(j >= len(objs) for j in uses_o): return False, False, st
+    ub = (uses_a and a0 == 'freed') or any(objs[j] == 'freed' for j in uses_o)
+    if ub: return True, True, st
+    if k == 'init':
+        if a0 is not None: return False, False, st          # one user array: a second `init` would never be referred to
+        a0 = 'null' if o['n'] < 0 else 'live'
+    elif k in ('get', 'copy'):
+        if len(objs) >= 2: return False, False, st
+        objs = objs + ('live',)
+    elif k == 'free': objs = tuple('freed' if j == o['j'] else x for j, x in enumerate(objs))
+    elif k == 'afree': a0 = 'freed' if a0 == 'live' else a0
+    return True, False, (a0, objs)
+
+def exhaustive_histories(L, level, shared, with_ub=True):
+    """every history of exactly L operations over the alphabet in which each operation refers to handles that exist, plus every shorter one
+    that ends in an operation through a released handle (undefined: the history stops there).  Shorter legal histories are prefixes."""
+    A = exh_alphabet(level); out = []
+    def rec(prefix, st):
+        if len(prefix) == L: out.append(prefix); return
+        for o in A:
+            ok, ub, st2 = exh_apply(st, o)
+            if not ok: continue
+            if ub:
+                if with_ub: out.append(prefix + [o])
+            else: rec(prefix + [o], st2)
+    rec([], (None, ()))
+    return [Hist(ops, EXH_POOL, 'exhaustive', shared) for ops in out], len(A)
 
 # --------------------------------------------------------------------------------------------------------------
 # running and comparing
@@ -319,38 +509,108 @@ class Env:
         if p.returncode != 0 or not p.stdout.startswith('builtin '):
             raise BuildError('dump of the built-in collection failed: ' + (p.stderr or p.stdout)[-1500:])
         self.builtin = p.stdout.splitlines()
+        # the initial state of the model is the same for every history of the run: one file, named by a `builtinfile` line
+        bf = self.sc.path('builtin.txt')
+        with open(bf, 'w') as f: f.write('\n'.join(self.builtin) + '\n')
+        self.builtin_ref = ['builtinfile ' + bf]
 
     def cenv(self):
         return dict(os.environ, ASAN_OPTIONS='detect_leaks=0:abort_on_error=0:halt_on_error=1:allocator_may_return_null=0',
                     UBSAN_OPTIONS='print_stacktrace=0:halt_on_error=1')
 
-    def materialise(self, h):
-        self.n += 1
-        d = self.sc.path('h%06d' % self.n); os.makedirs(d, exist_ok=True)
-        lines, files = h.lines(self.builtin)
-        hp = os.path.join(d, 'history.txt')
-        open(hp, 'w').write('\n'.join(lines) + '\n')
-        for i, t in enumerate(files): open(os.path.join(d, 'f%d.dat' % i), 'w').write(t)
-        return d, hp
+    def materialise_many(self, hists):
+        """write the crystal files and the history file of each history -> [(dir, history path)].  Files the generator does not
+        interpret get their expected content (for the specification) from the model's character-level reader."""
+        mats = []; raws = []
+        for h in hists:
+            self.n += 1
+            if h.shared is not None:
+                d = h.shared
+                hp = os.path.join(d, 'h%07d.txt' % self.n)
+            else:
+                d = self.sc.path('h%07d' % self.n); os.makedirs(d, exist_ok=True)
+                hp = os.path.join(d, 'history.txt')
+                for i, sp in enumerate(h.file_specs()):
+                    fp = os.path.join(d, 'f%d.dat' % i)
+                    with open(fp, 'wb') as f: f.write(render_file(sp).encode('latin-1'))
+                    if 'raw' in sp: raws.append((h, sp, fp))
+            mats.append((d, hp))
+        if raws:
+            got = self.parse_files([fp for _, _, fp in raws])
+            for h, sp, fp in raws:
+                g = got.get(fp, 'UNSUPPORTED')
+                if g.startswith('P'): sp['tokens'] = g[2:]
+                else: sp['tokens'] = ''; h.skip = 'the reader model does not interpret file %s (%s): %s' % (os.path.basename(fp), sp.get('why'), g)
+        for h, (d, hp) in zip(hists, mats):
+            lines, _ = h.lines(self.builtin_ref)
+            with open(hp, 'w', encoding='latin-1') as f: f.write('\n'.join(lines) + '\n')
+        return mats
 
-    def run_c(self, d, hp):
-        p = subprocess.run([self.cdrv, hp, d], capture_output=True, text=True, env=self.cenv(), errors='replace')
-        died = None
-        if p.returncode != 0 or not p.stdout.rstrip().endswith('end'):
-            m = re.search(r'(runtime error: [^\n]*|ERROR: AddressSanitizer: [^\n]*|SUMMARY: [^\n]*)', p.stderr)
-            died = (m.group(1)[:200] if m else 'exit %d %s' % (p.returncode, p.stderr[-200:]))
-        return p.stdout.splitlines(), died
+    def parse_files(self, paths):
+        out = {}
+        for i in range(0, len(paths), 300):
+            p = subprocess.run([self.model, 'parse'] + paths[i:i + 300], capture_output=True)
+            if p.returncode != 0: raise BuildError('c14-model parse failed: ' + p.stderr.decode('utf-8', 'replace')[-2000:])
+            for l in p.stdout.decode('utf-8', 'replace').split('\n'):
+                if l.startswith('file '):
+                    t = l.split(' ', 2)
+                    out[t[1]] = t[2] if len(t) > 2 else ''
+        return out
+
+    def run_c(self, d, hp, cdrv=None):
+        p = subprocess.run([cdrv or self.cdrv, hp, d], capture_output=True, env=self.cenv())
+        out = p.stdout.decode('latin-1'); err = p.stderr.decode('latin-1')
+        return out.split('\n')[:-1] if out.endswith('\n') else out.split('\n'), self.died(p.returncode, out, err)
+
+    DIED = re.compile(r'(runtime error: [^\n]*|ERROR: AddressSanitizer: [^\n]*|WARNING: MemorySanitizer: [^\n]*|SUMMARY: [^\n]*)')
+    def died(self, rc, out, err):
+        if rc == 0 and out.rstrip().endswith('end'): return None
+        m = self.DIED.search(err)
+        return m.group(1)[:200] if m else 'exit %d %s' % (rc, err[-200:].replace('\n', ' '))
+
+    def run_c_batch(self, mats, jobs=14, cdrv=None):
+        """every history in a forked child of one harness process per chunk -> [(lines, died)] aligned with `mats`"""
+        if not mats: return []
+        chunks = [mats[i::jobs] for i in range(jobs) if mats[i::jobs]]
+        def one(ch):
+            self.n += 1
+            lf = self.sc.path('batch%07d_%d.txt' % (self.n, id(ch) % 100000))
+            with open(lf, 'w') as f: f.write(''.join('%s %s\n' % (hp, d) for d, hp in ch))
+            p = subprocess.run([cdrv or self.cdrv, lf, '-', 'batch'], capture_output=True, env=self.cenv())
+            os.unlink(lf)
+            if p.returncode != 0: raise BuildError('c14drv batch mode failed (exit %d): %s' % (p.returncode, p.stderr.decode('latin-1')[-1500:]))
+            errs = {}; cur = None
+            for l in p.stderr.decode('latin-1').split('\n'):
+                if l.startswith('history '): cur = l[8:]; errs[cur] = []
+                elif cur is not None: errs[cur].append(l)
+            res = {}; cur = None; buf = []
+            for l in p.stdout.decode('latin-1').split('\n'):
+                if cur is None:
+                    if l.startswith('history '): cur = l[8:]; buf = []
+                elif l.startswith('exit ') and l[5:].isdigit():
+                    if buf and buf[-1] == '': buf.pop()            # the parent starts its `exit` line on a fresh line
+                    rc = int(l[5:]); out = '\n'.join(buf)
+                    res[cur] = (buf, self.died(rc, out, '\n'.join(errs.get(cur, []))))
+                    cur = None
+                else: buf.append(l)
+            return res
+        res = {}
+        with ThreadPoolExecutor(max_workers=jobs) as ex:
+            for r in ex.map(one, chunks): res.update(r)
+        missing = [hp for _, hp in mats if hp not in res]
+        if missing: raise BuildError('c14drv batch mode gave no answer for %d histories, e.g. %s' % (len(missing), missing[0]))
+        return [res[hp] for _, hp in mats]
 
     def run_model(self, mode, hps):
         """one model process for many histories; returns {path: lines}"""
         out = {}
         for i in range(0, len(hps), 200):
-            p = subprocess.run([self.model, mode, str(self.bcap)] + hps[i:i + 200], capture_output=True, text=True)
-            if p.returncode != 0: raise BuildError('c14-model failed: ' + p.stderr[-2000:])
+            p = subprocess.run([self.model, mode, str(self.bcap)] + hps[i:i + 200], capture_output=True)
+            if p.returncode != 0: raise BuildError('c14-model failed: ' + p.stderr.decode('utf-8', 'replace')[-2000:])
             cur = None
-            for l in p.stdout.splitlines():
+            for l in p.stdout.decode('utf-8', 'replace').split('\n'):
                 if l.startswith('history '): cur = l[8:]; out[cur] = []
-                elif cur is not None: out[cur].append(l)
+                elif cur is not None and l != '': out[cur].append(l)
         return out
 
 VOL = re.compile(r' v=(x[0-9a-f]{16})')
@@ -387,10 +647,11 @@ def compare_model(c_lines, died, m_lines, stats):
         if not line_agrees(c, m, stats): return 'line %d: impl `%s` / model `%s`' % (i, c[:200], m[:200])
     return None
 
+ALLOC = re.compile(r' alloc=\d+'); ERRTXT = re.compile(r' err=\d+:.*$')
 def c_to_spec_view(l):
     """project a harness line onto what the specification talks about"""
-    l = re.sub(r' alloc=\d+', '', l)
-    l = re.sub(r' err=\d+:.*$', ' err=+', l)
+    if ' alloc=' in l: l = ALLOC.sub('', l)
+    if ' err=' in l and not l.endswith(' err=-'): l = ERRTXT.sub(' err=+', l)
     return l
 
 def compare_spec(c_lines, died, s_lines, stats):
@@ -400,7 +661,9 @@ def compare_spec(c_lines, died, s_lines, stats):
     if died is not None and len(c_lines) <= upto:
         return 'undefined behaviour in a legal history: %s (after line %d: `%s`)' % (died, len(c_lines) - 1, c_lines[-1][:120] if c_lines else '')
     for i in range(min(upto, len(c_lines))):
-        c, s = c_to_spec_view(c_lines[i]), s_lines[i]
+        c, s = c_lines[i], s_lines[i]
+        if c == s: continue
+        c = c_to_spec_view(c)
         if s.startswith('live ?'):
             if not c.endswith(' fds 0'): return 'line %d: open files after the call: `%s`' % (i, c)
             continue
@@ -408,13 +671,15 @@ def compare_spec(c_lines, died, s_lines, stats):
     if ill is None and len(c_lines) != len(s_lines): return 'different number of lines: impl %d, spec %d' % (len(c_lines), len(s_lines))
     return None
 
-def check_histories(env, hists, stats, jobs=14, modes=('model', 'spec')):
+def check_histories(env, hists, stats, jobs=14, modes=('model', 'spec'), cdrv=None, timing=None):
     """run histories through the implementation, the model and the specification.
     Returns a list of (hist, mode, difference): mode 'model' = model and implementation disagree (the tie),
     mode 'spec' = the implementation does not do what the property says (a violation)."""
-    mats = [env.materialise(h) for h in hists]
-    with ThreadPoolExecutor(max_workers=jobs) as ex:
-        cres = list(ex.map(lambda dh: env.run_c(*dh), mats))
+    t0 = time.time()
+    mats = env.materialise_many(hists)
+    t1 = time.time()
+    cres = env.run_c_batch(mats, jobs, cdrv)
+    t2 = time.time()
     hps = [hp for _, hp in mats]
     chunks = [hps[i::jobs] for i in range(jobs) if hps[i::jobs]]
     res = {}
@@ -422,20 +687,33 @@ def check_histories(env, hists, stats, jobs=14, modes=('model', 'spec')):
         with ThreadPoolExecutor(max_workers=jobs) as ex:
             res[mode] = {}
             for r in ex.map(lambda c: env.run_model(mode, c), chunks): res[mode].update(r)
+    t3 = time.time()
     bad = []
     for h, (d, hp), (cl, died) in zip(hists, mats, cres):
-        for mode in modes:
-            ml = res[mode].get(hp, [])
-            if mode == 'model':
-                diff = compare_model(cl, died, ml, stats)
-            else:
-                if h.kind == 'misuse': continue
-                diff = compare_spec(cl, died, ml, stats)
-            if diff: bad.append((h, mode, diff))
-        account(h, cl, died, stats)
-        shutil.rmtree(d, ignore_errors=True)
+        if h.skip:
+            stats['reader_unsupported'] = stats.get('reader_unsupported', 0) + 1
+        else:
+            for mode in modes:
+                ml = res[mode].get(hp, [])
+                if mode == 'model':
+                    if any(re.match(r'op \d+ read unsupported$', l) for l in ml[-1:]):
+                        stats['reader_unsupported'] = stats.get('reader_unsupported', 0) + 1; break
+                    diff = compare_model(cl, died, ml, stats)
+                else:
+                    if h.kind == 'misuse': continue
+                    diff = compare_spec(cl, died, ml, stats)
+                if diff: bad.append((h, mode, diff))
+            account(h, cl, died, stats)
+        if h.shared is None: shutil.rmtree(d, ignore_errors=True)
+        else:
+            try: os.unlink(hp)
+            except OSError: pass
+    if timing is not None:
+        for k, v in (('materialise', t1 - t0), ('library', t2 - t1), ('model_and_spec', t3 - t2), ('compare', time.time() - t3)):
+            timing[k] = round(timing.get(k, 0.0) + v, 2)
     return bad
 
+LOOKUP = re.compile(r'^(?:B|A\d+) \? (\S+) (F|A)')
 def account(h, cl, died, stats):
     stats['histories'] = stats.get('histories', 0) + 1
     stats['ops'] = stats.get('ops', 0) + len(h.ops)
@@ -460,6 +738,34 @@ def account(h, cl, died, stats):
         elif l.startswith('B list '):
             stats['max_builtin'] = max(stats.get('max_builtin', 0), int(l.split(' ')[2]))
     if died: stats['impl_aborts'] = stats.get('impl_aborts', 0) + 1
+    # names longer than the 20 characters of a file name field, and their 20-character prefixes: really looked up?
+    ll = stats.setdefault('lookups_by_name_length', {'>20': {'found': 0, 'absent': 0}, '=20': {'found': 0, 'absent': 0}, '<20': {'found': 0, 'absent': 0}})
+    rets = {}
+    for l in cl:
+        m = LOOKUP.match(l) if ' ? ' in l else None
+        if m:
+            n = len(m.group(1)); ll['>20' if n > 20 else '=20' if n == 20 else '<20']['found' if m.group(2) == 'F' else 'absent'] += 1
+        elif l.startswith('op '):
+            t = l.split(' ', 4)
+            if len(t) > 3 and t[1].isdigit(): rets[int(t[1])] = l
+    lg = stats.setdefault('get_ops_by_name_length', {'>20': {'found': 0, 'absent': 0}, '=20': {'found': 0, 'absent': 0}, '<20': {'found': 0, 'absent': 0}})
+    fk = stats.setdefault('file_kinds', {})
+    for k, o in enumerate(h.ops):
+        r = rets.get(k)
+        if r is None: continue
+        if o['op'] == 'get' and o['name'] != '~':
+            n = len(o['name']); lg['>20' if n > 20 else '=20' if n == 20 else '<20']['found' if ' ret=P' in r else 'absent'] += 1
+        elif o['op'] == 'read' and isinstance(o['file'], dict):
+            f = o['file']
+            lab = ('raw:' + f.get('why', '?')) if 'raw' in f else 'empty0' if f.get('empty0') else ('bad:' + f['bad'][0]) if f.get('bad') else 'good'
+            d = fk.setdefault(lab, {'ret1': 0, 'ret0': 0})
+            d['ret1' if ' ret=1' in r else 'ret0'] += 1
+            if 'raw' not in f and not f.get('empty0'):
+                for flag in ('tabs', 'biso', 'longc', 'crlf'):
+                    if f.get(flag):
+                        d2 = fk.setdefault('with:' + flag, {'ret1': 0, 'ret0': 0}); d2['ret1' if ' ret=1' in r else 'ret0'] += 1
+                if f.get('tail') in (1, 2, 3) and not f.get('bad'):
+                    d2 = fk.setdefault('tail:%d' % f['tail'], {'ret1': 0, 'ret0': 0}); d2['ret1' if ' ret=1' in r else 'ret0'] += 1
     if mutated:
         stats.setdefault('_nontrivial', set()).add(hashlib.sha256(h.to_json().encode()).hexdigest())
 
@@ -551,6 +857,50 @@ def regenerate(env):
     if old != src: open(GEN_FILE, 'w').write(src)
     return names
 
+def regenerate_facts(env):
+    """structure of the container code from the clang AST of the working tree -> Gen/Facts.lean; returns (problem or None, facts)"""
+    js = env.sc.path('c14_facts.json')
+    p = subprocess.run([sys.executable, FACTS_TOOL, env.sc.path('b'), FACTS_FILE, '--json', js], capture_output=True, text=True, env=dict(os.environ, VERIF_REPO=REPO))
+    if p.returncode == 3: return 'the structure extractor does not understand the container code any more (broken tie): ' + p.stderr.strip()[-600:], None
+    if p.returncode != 0: raise BuildError('tools/c14_facts.py crashed: ' + p.stderr[-2000:])
+    return None, json.load(open(js))
+
+def lean_string_lists(path, prefix=''):
+    """`def <prefix>NAME : List String := [ "..." , ... ]` blocks of a Lean file -> {NAME: [lines]}"""
+    sys.path.insert(0, os.path.join(VERIF, 'tools'))
+    from c14_facts import unlean_str
+    out = {}
+    txt = open(path).read()
+    for m in re.finditer(r'^def ' + re.escape(prefix) + r'(\w+) : List String := \[\n(.*?)\n\]', txt, re.S | re.M):
+        out[m.group(1)] = [unlean_str(l.strip().rstrip(',')) for l in m.group(2).split('\n') if l.strip()]
+    return out
+
+def skeleton_diff(facts):
+    """entry-level view of a failing `code_skeleton_*` theorem: which statements of which function changed"""
+    import difflib
+    exp = lean_string_lists(SKELETON_FILE)
+    out = []
+    for fn, got in facts['skeletons'].items():
+        e = exp.get(fn)
+        if e is None: out.append('%s: no recorded skeleton' % fn); continue
+        if e != got:
+            d = [l for l in difflib.unified_diff(e, got, 'modelled ' + fn, 'working tree ' + fn, lineterm='', n=1)]
+            out.append('\n'.join(d[:40]))
+    return out
+
+def failing_in(log, path):
+    rel = os.path.relpath(path, LEAN)
+    lines = [int(x) for m in re.findall(re.escape(rel) + r':(\d+):\d+: error|error: ' + re.escape(rel) + r':(\d+)', log) for x in m if x]
+    src = open(path).read().splitlines(); names = []
+    for ln in lines:
+        for i in range(min(ln, len(src)) - 1, -1, -1):
+            m = re.match(r'\s*(?:private\s+)?(?:theorem|example)\s*([\w\.\']*)', src[i])
+            if m:
+                nm = m.group(1) or 'example@%d' % (i + 1)
+                if nm not in names: names.append(nm)
+                break
+    return names
+
 def lean_sources():
     out = [os.path.join(LEAN, 'Driver.lean')]
     for root, dirs, files in os.walk(os.path.join(LEAN, 'XrlCrystals')):
@@ -605,12 +955,19 @@ def corpus():
 # --------------------------------------------------------------------------------------------------------------
 
 TRUSTED = [
-    'Lean 4.33 kernel (lake build; thorough tier: leanchecker re-check of XrlCrystals.Props.C14); axioms allowed: propext, Classical.choice, Quot.sound (audited by #print axioms on every run)',
+    'Lean 4.33 kernel (lake build; thorough tier: leanchecker re-check of the three Props modules); axioms allowed: propext, Classical.choice, Quot.sound (audited by #print axioms on every run)',
     'Mathlib (module-wise, proofs only: Data.Multiset.*, Data.List.Sort, Data.String.Basic)',
-    'hand model lean-crystals/XrlCrystals/Hand/{Crystals,Caller}.lean of src/crystal_diffraction.c: trusted only as far as the correspondence run exercises it (same histories through harness/c14drv.c on the ASan+UBSan build of the working tree, every observable compared after every operation)',
-    'libc by contract: qsort (sorts with the comparator), bsearch (finds an equal element of a sorted vector), realloc (as allocate-copy-free), strdup, and the tokenisation fgets/sscanf/fscanf of Crystal_ReadFile (the model takes the parsed entries; the generator predicts them and the prediction is checked against the library on every file)',
-    'not modelled: allocation failure (malloc returning NULL), IEEE-754 (doubles are only copied; the volume formula is a parameter, property C13), lines longer than 99 characters and a Biso column in crystal files, Crystal_Struct arguments with a NULL name or a wrong n_atom built by the caller',
-    'AddressSanitizer/UBSan, the --wrap allocation counter and /proc/self/fd: observers in the correspondence check and the violation search only',
+    'hand model lean-crystals/XrlCrystals/Hand/{Crystals,Caller,Reader}.lean of src/crystal_diffraction.c: (1) its structure is tied to the source statically - tools/c14_facts.py extracts the statement skeleton of the ten container '
+    'functions and the two comparators, the growth step, the error codes and messages, the fgets length, the scanf formats and the buffer sizes from the clang AST of the working tree on every run, and Props/C14c.lean proves '
+    'extracted = recorded (Hand/Skeleton.lean) and model constants / model error objects = extracted ones; (2) its behaviour is tied by execution - every history of <= 4 (thorough: 5) operations over a 29-operation alphabet, plus the '
+    'seeded random histories, through harness/c14drv.c on the ASan+UBSan build of the working tree, every observable compared after every operation',
+    'the extractor tools/c14_facts.py (a 200-line walk over the clang JSON AST that aborts on any construct it does not know) and clang-14 as parser',
+    'libc by contract: qsort (sorts with the comparator), bsearch (finds an equal element of a sorted vector), realloc (as allocate-copy-free), strdup; the conversions %d %i %lf %20s of scanf, fgets, ftell/fseek, feof are MODELLED '
+    '(Hand/Reader.lean, written as lean-loader/Loader/Scan.lean, probed against glibc 2.36) and compared with the library on the bytes of every generated file, incl. byte-level garbage; decimal -> double is the driver\'s own correctly '
+    'rounded conversion (checked against Python float() on 20 000 tokens while building, and against the library\'s strtod by every run)',
+    'not modelled: allocation failure (malloc returning NULL), IEEE-754 (doubles are only copied; the volume formula is a parameter, property C13), inf / nan / hexadecimal floating-point tokens in crystal files (such files are '
+    'skipped and counted), bytes >= 0x80 in crystal files, Crystal_Struct arguments with a NULL name or a wrong n_atom built by the caller',
+    'AddressSanitizer/UBSan (thorough tier also MemorySanitizer), the --wrap allocation counter and /proc/self/fd: observers in the correspondence check and the violation search only',
 ]
 
 class C14:
@@ -657,15 +1014,26 @@ class C14:
         t = time.time()
         with LeanLock():
             names = regenerate(env)
+            facts_problem, facts = regenerate_facts(env)
             ok_exe, log_exe = lake(['c14-model'])
-            ok_props, log_props = lake([MODULE])
+            built = {}
+            for mod, path in PROPS:
+                if mod.endswith('C14c') and facts_problem: built[mod] = (False, facts_problem); continue
+                built[mod] = lake([mod])
             ok_gen, log_gen = lake(['XrlCrystals.Gen.Builtin'])
         timings['lake_build'] = round(time.time() - t, 2)
         if not ok_exe: raise BuildError('the model driver does not build: ' + log_exe[-3000:])
+        ok_props = all(ok for ok, _ in built.values())
         failing = []
-        if not ok_props:
-            failing = core.failing_theorems(log_props.replace(LEAN + '/', ''), PROPS_FILE) or ['(module %s does not build)' % MODULE]
-            problems.append('theorems that no longer check: %s\n%s' % (', '.join(failing), '\n'.join(re.findall(r'error: [^\n]*', log_props)[:8])))
+        if facts_problem: problems.append(facts_problem)
+        for mod, path in PROPS:
+            ok, lg = built[mod]
+            if ok or (mod.endswith('C14c') and facts_problem): continue
+            f = failing_in(lg.replace(LEAN + '/', ''), path) or ['(module %s does not build)' % mod]
+            failing += f
+            problems.append('theorems that no longer check: %s\n%s' % (', '.join(f), '\n'.join(re.findall(r'error: [^\n]*', lg)[:8])))
+            if mod.endswith('C14c') and facts:
+                for d in skeleton_diff(facts): problems.append('the container code of the working tree is not the code the hand model was written against:\n' + d)
         if not ok_gen:
             problems.append('the shipped collection is not strictly sorted by name or does not fit CRYSTALARRAY_MAX (XrlCrystals.Gen.Builtin does not build): ' +
                             ' '.join(re.findall(r'error: [^\n]*', log_gen)[:3]))
@@ -673,25 +1041,27 @@ class C14:
         t = time.time()
         bad = core.audit_sources(lean_sources())
         if bad: problems.append('forbidden construct in Lean sources: ' + '; '.join(bad[:5]))
-        theorems = core.theorems_of(PROPS_FILE, NAMESPACE)
+        theorems = [t for _, path in PROPS for t in core.theorems_of(path, NAMESPACE)]
         for req in REQUIRED_THEOREMS:
             if NAMESPACE + '.' + req not in theorems: problems.append('property theorem %s is missing from %s' % (req, MODULE))
         gen_theorems = ['XrlCrystals.Gen.builtin_names_sorted', 'XrlCrystals.Gen.builtin_fits']
         axioms = {}
-        if ok_props and ok_gen:
-            axioms, txt = print_axioms(sc, [MODULE, 'XrlCrystals.Gen.Builtin'], theorems + gen_theorems)
-            for th in theorems + gen_theorems:
+        ok_mods = [(m, path) for m, path in PROPS if built[m][0]]
+        audited = [t for _, path in ok_mods for t in core.theorems_of(path, NAMESPACE)] + (gen_theorems if ok_gen else [])
+        if audited:
+            axioms, txt = print_axioms(sc, [m for m, _ in ok_mods] + (['XrlCrystals.Gen.Builtin'] if ok_gen else []), audited)
+            for th in audited:
                 if th not in axioms: problems.append('axiom audit: no report for %s' % th)
                 else:
                     extra = set(axioms[th]) - core.ALLOWED_AXIOMS
                     if extra: problems.append('axiom audit: %s depends on %s' % (th, sorted(extra)))
-        src = core.strip_comments(open(PROPS_FILE).read())
-        n_examples = len(re.findall(r'^\s*example\b', src, re.M))
+        n_examples = sum(len(re.findall(r'^\s*example\b', core.strip_comments(open(path).read()), re.M)) for _, path in PROPS)
         if n_examples < 5: problems.append('non-vacuity examples missing from %s (found %d)' % (MODULE, n_examples))
         if tier == 'thorough' and ok_props:
-            p = subprocess.run(['lake', 'env', 'leanchecker', MODULE], cwd=LEAN, capture_output=True, text=True)
-            if p.returncode != 0: problems.append('leanchecker rejected %s: %s' % (MODULE, (p.stdout + p.stderr)[-400:]))
-            else: notes.append('leanchecker re-checked ' + MODULE)
+            for mod, _ in PROPS:
+                p = subprocess.run(['lake', 'env', 'leanchecker', mod], cwd=LEAN, capture_output=True, text=True)
+                if p.returncode != 0: problems.append('leanchecker rejected %s: %s' % (mod, (p.stdout + p.stderr)[-400:]))
+                else: notes.append('leanchecker re-checked ' + mod)
         timings['audit'] = round(time.time() - t, 2)
         # ---- 5. correspondence + violation search ----------------------------------------------------------------
         t = time.time()
@@ -704,10 +1074,48 @@ class C14:
             n = 500 if tier == 'quick' else 6000
             kinds = ['valid'] * 6 + ['misuse'] * 2 + ['builtin_full']
             hists = corpus() + [gen_history(rng, rng.choice(kinds)) for _ in range(n)]
-        bad = []
+        bad = []; tsplit = {}
         for i in range(0, len(hists), 400):
-            bad += check_histories(env, hists[i:i + 400], stats)
+            bad += check_histories(env, hists[i:i + 400], stats, timing=tsplit)
         timings['correspondence_and_search'] = round(time.time() - t, 2)
+        # ---- 5b. exhaustive enumeration of short histories (every run) ----------------------------------------------
+        t = time.time()
+        exh = {}
+        if not replay:
+            xd = sc.path('exh'); os.makedirs(xd, exist_ok=True)
+            for i, sp in enumerate(EXH_FILES):
+                with open(os.path.join(xd, 'f%d.dat' % i), 'wb') as f: f.write(render_file(sp).encode('latin-1'))
+            plan = [(4, 2)] if tier == 'quick' else [(5, 2)]
+            for L, level in plan:
+                xs, nalpha = exhaustive_histories(L, level, xd)
+                st2 = {}
+                for i in range(0, len(xs), 6000):
+                    bad += check_histories(env, xs[i:i + 6000], st2, timing=tsplit)
+                exh['length<=%d' % L] = dict(alphabet=nalpha, histories=len(xs), ops=st2.get('ops', 0), lines_compared=st2.get('lines', 0),
+                                             ended_in_abort_agreed_with_model_ub=st2.get('ub_agreed', 0), distribution=st2.get('dist', {}),
+                                             lookups_by_name_length=st2.get('lookups_by_name_length'), file_kinds=st2.get('file_kinds'))
+                for k in ('histories', 'ops', 'lines', 'ub_agreed', 'impl_aborts'): stats[k] = stats.get(k, 0) + st2.get(k, 0)
+                stats.setdefault('kinds', {})['exhaustive'] = stats.get('kinds', {}).get('exhaustive', 0) + len(xs)
+                stats.setdefault('_nontrivial', set()).update(st2.get('_nontrivial', set()))
+        timings['exhaustive'] = round(time.time() - t, 2)
+        timings['split'] = tsplit
+        # ---- 5c. uninitialised reads (thorough tier): the same comparison on a MemorySanitizer build ----------------------
+        msan = {}
+        if tier == 'thorough' and not replay:
+            t = time.time()
+            objs_m, fl_m = cbuild.build_lib(sc, REPO, san='memory', tag='msan', extra=['-fsanitize-memory-track-origins=2'])
+            cdrv_m = cbuild.link(sc, objs_m, [HARNESS], sc.path('c14drv_msan'), fl_m + WRAP)
+            rng_m = random.Random(seed * 1000003 + 1414)
+            hm = corpus() + [gen_history(rng_m, rng_m.choice(['valid'] * 8 + ['builtin_full']), length=rng_m.choice([6, 12, 25, 50])) for _ in range(1200)]
+            hm += exhaustive_histories(4, 1, sc.path('exh'), with_ub=False)[0]       # MemorySanitizer does not see stale handles: legal histories only
+            st3 = {}
+            for i in range(0, len(hm), 600):
+                bad += check_histories(env, hm[i:i + 600], st3, cdrv=cdrv_m, timing=tsplit)
+            msan = dict(histories=st3.get('histories', 0), ops=st3.get('ops', 0), lines_compared=st3.get('lines', 0), reports=st3.get('impl_aborts', 0), file_kinds=st3.get('file_kinds'))
+            for k in ('histories', 'ops', 'lines'): stats[k] = stats.get(k, 0) + st3.get(k, 0)
+            stats.setdefault('_nontrivial', set()).update(st3.get('_nontrivial', set()))
+            notes.append('MemorySanitizer pass: %d histories, %d reports' % (msan['histories'], msan['reports']))
+            timings['msan'] = round(time.time() - t, 2)
         viol = [(h, why) for h, mode, why in bad if mode == 'spec']
         tie = [(h, why) for h, mode, why in bad if mode == 'model']
         # ---- report ---------------------------------------------------------------------------------------------
@@ -737,19 +1145,25 @@ class C14:
             print('VIOLATION property=%s replay=%s no-failing-input-found' % (ID, path))
             exit_code = 1
         timings['shrink'] = round(time.time() - t, 2)
-        n_dis = 0 if not ok_props else sum(1 for th in theorems if th in axioms and not (set(axioms[th]) - core.ALLOWED_AXIOMS))
+        n_dis = sum(1 for th in theorems if th in axioms and th not in [NAMESPACE + '.' + f for f in failing] and not (set(axioms[th]) - core.ALLOWED_AXIOMS))
         nontriv = len(stats.pop('_nontrivial', set()))
         samples = []
         for h in hists[-2:]:
             ls, fs = h.lines([])
             samples.append(dict(kind=h.kind, ops=len(h.ops), history=[l[:200] for l in ls[:12]], files=len(fs)))
         cov = dict(obligations=max(len(theorems), 1), discharged=n_dis,
-                   checker_cmd='cd lean-crystals && lake build %s XrlCrystals.Gen.Builtin  (then `#print axioms` on every theorem of the module)' % MODULE,
+                   checker_cmd='cd lean-crystals && lake build %s XrlCrystals.Gen.Builtin  (Gen/Builtin.lean and Gen/Facts.lean are regenerated from the working tree first; then `#print axioms` on every theorem of the modules)' % ' '.join(m for m, _ in PROPS),
                    trusted_base=TRUSTED, theorems=[dict(name=th, axioms=axioms.get(th)) for th in theorems + gen_theorems],
                    traces_validated_against_impl=stats.get('histories', 0), evaluations=stats.get('ops', 0), distinct_nontrivial=nontriv,
-                   rule='seeded random operation histories (length 6..200 + release epilogue) over 1-3 user arrays of initial capacity 0..12 (and -1), the built-in array '
-                        '(NULL) incl. a kind that fills it to its capacity, literal crystals (names from a pool of %d incl. prefixes/case/shipped names, cells, 0-8 atoms), '
-                        'handed-out copies as sources, generated crystal files (well-formed, 6 kinds of corruption, duplicate names, long names, three kinds of file end), '
+                   rule='(a) EXHAUSTIVE: every history of exactly 4 operations (thorough tier: 5) over an alphabet of %d operations - the operation kinds of the protocol over 3 names (a shipped name, a new one, one of 29 characters), '
+                        'the built-in array, one user array (capacities 0, 1, -1), literal / handed-out / NULL sources, a well-formed file (2 entries, one name cut to 20 characters), a file with a good entry followed by a malformed one, '
+                        'a 0-byte file, a missing file, two handed-out objects (copy, free, scribble, double free) - in which every operation refers to handles that exist; histories that use a released handle end there '
+                        '(sanitizer abort <=> model ub); shorter legal histories are prefixes.  (b) RANDOM: seeded random operation histories (length 6..200 + release epilogue) over 1-3 user arrays of initial capacity 0..12 (and -1), the built-in array ' % (exh.get('length<=4', exh.get('length<=5', {})).get('alphabet', 0))
+                        + '(NULL) incl. a kind that fills it to its capacity, literal crystals (names from a pool of %d incl. prefixes/case/shipped names, cells, 0-8 atoms), '
+                        'handed-out copies as sources, generated crystal files (well-formed with wide token syntax: exponent, sign, leading/trailing dot, leading zeros, tabs, octal/hex atomic numbers as %%i reads them, '
+                        'CR LF line ends, the optional Biso column, comment lines of 100+ characters, four kinds of file end incl. a final newline after the last atom; 6 kinds of corruption, duplicate names, long names; '
+                        '0-byte files; and files the generator does not interpret - random ASCII bytes incl. NUL, byte-level mutations of valid files, atom lines of 100+ characters, `08`-style atomic numbers, `#S` at a cut of '
+                        'fgets(buffer,100), glued tags - whose expected content is what the character-level reader model makes of their bytes), '
                         'a "misuse" kind with stale handles (sanitizer abort <=> model ub); every history is run on the library (fresh process), the model and the '
                         'specification; after EVERY operation: return value, error, live blocks, open files, raw vector (count, capacity, order), listing, a lookup of every '
                         'pool name in every live collection, every handed-out copy.  non-trivial = distinct histories with at least one successful addition or file load' % len(POOL),
@@ -758,6 +1172,11 @@ class C14:
                    max_user_array=stats.get('max_n', 0), max_capacity=stats.get('max_alloc', 0), max_builtin=stats.get('max_builtin', 0),
                    max_rel_dev_volume=stats.get('max_rel_dev', 0.0), builtin_crystals=len(names), CRYSTALARRAY_MAX=env.bcap,
                    correspondence_mismatches=len(tie), search_violations=len(viol), nonvacuity_examples=n_examples,
+                   exhaustive=exh, memory_sanitizer_pass=msan or 'thorough tier only',
+                   lookups_by_name_length=stats.get('lookups_by_name_length'), get_ops_by_name_length=stats.get('get_ops_by_name_length'),
+                   file_kinds=stats.get('file_kinds'), files_outside_the_reader_model=stats.get('reader_unsupported', 0),
+                   extracted_structure=(dict(growth_step=facts['growth'], fgets_length=facts['fgets_n'], scanf_formats=facts['formats'], buffers=facts['buffers'],
+                                             error_codes=facts['codes'], error_sites=len(facts['errors']), skeleton_lines={k: len(v) for k, v in facts['skeletons'].items()}) if facts else None),
                    broken=dict(obligations=problems, tie=[w for _, w in tie[:5]]), repo=REPO)
         self.evidence(tier, seed, t0, timings, notes, cov, len(viol) + (1 if (tie or problems) and not viol else 0))
         log('%s %s: exit %d (%.1fs; theorems %d/%d; %d histories, %d ops, %d lines; tie mismatches %d; violations %d)' % (
